@@ -301,7 +301,7 @@ def wrap_with_field(node: CSSValue, config: Config, state: WrapState=None):
         elif isinstance(v, tokens.Literal):
             value.append(tokens.Field(v.value, state.inc()))
         elif isinstance(v, tokens.NumberValue):
-            value.append(tokens.Field(''.join((v.value, v.unit)), state.inc()))
+            value.append(tokens.Field(''.join((v.raw_value, v.unit)), state.inc()))
         elif isinstance(v, tokens.StringValue):
             q = '\'' if v.quote == 'single' else '"'
             value.append(tokens.Field(''.join((q, v.value, q)), state.inc()))
